@@ -15,8 +15,8 @@ ITER_A, ITER_B = 3, 10          # iteration bound 3n+10 (DESIGN section 7, C09: 
 KAPPA_MAX = 1e4
 RULE = ("SPD systems (Gram + shift, random sparse pattern; solver CG) and strictly row-diagonally-dominant nonsymmetric systems (random pattern "
         "and signs; solvers BiCG itol 1/2, BiCGSTAB, QMR) of order 1..60 (quick: 1..40), condition (2-norm for SPD, Gershgorin proxy for SDD) <= 1e4, "
-        "any triplet order; right-hand sides plain / scaled by 2^-30..2^30 / zero; guesses zero / random / exact; tol 1e-3..1e-12; budget 20n+100. "
-        "Demanded: Ok within 3n+10 iterations (mixed-sign diagonals: within the budget 20n+100), x finite, ||x - x_direct|| <= 2*tol*kappa*||x_direct|| -- only where attainable in f64 "
+        "any triplet order; right-hand sides plain / scaled by 2^-30..2^30 / tiny = scaled by 2^-(55..200) (3 of 4) or 2^+(55..200) (drawn with p = 1/6) / zero; guesses zero / random / exact; tol 1e-3..1e-12; budget 20n+100. "
+        "Demanded: Ok within 3n+10 iterations (mixed-sign diagonals: within the budget 20n+100), x finite, ||x - x_direct|| <= 2*tol*kappa*||x_direct|| + 1e-12*kappa*||x_direct|| (the second term for the drift of the recursive residual; b = 0: 2*tol*||A^-1||) -- only where attainable in f64 "
         "(tol >= 10*n*2^-52*kappa; with b = 0: tol >= 1e-13*||A||*||x0||). Exact guess (float residual exactly 0) and zero rhs + zero guess: Ok(0), x untouched. "
         "Systems of order <= 12 also go through the correspondence check. SPECIAL-VALUES FAMILIES (same demands): struct-* = structured SPD / strictly diagonally "
         "dominant matrices of order 1,2,3,4,5,8 (identity, 2I, I/2, -I, diagonal with equally spaced / two distinct / mixed-sign eigenvalues, tridiagonal symmetric / "
@@ -28,12 +28,15 @@ RULE = ("SPD systems (Gram + shift, random sparse pattern; solver CG) and strict
         "calls on the same matrix and x; the call with the budget 20n+100 carries the demands with the previous x as its guess. "
         "extreme-scale = adversarial family of the RECORDED finding f64-square-range (5 systems per quick run, all five entry points): small SPD / strictly diagonally "
         "dominant systems with b or A scaled by 2^+-(520..700) or a solution beyond the f64 range; a failure carries the key exactly when the INPUT has ||b||^2, the "
-        "square of an entry of b / x0 / A or a product A_ij x_j of the exact solution outside [2^-1022, 2^1024) (inputs in range fall through to the breakdown keys; histories never). "
+        "square of an entry of b / x0 / A or a product A_ij x_j of the exact solution outside [2^-1022, 2^1024) AND the failure is a symptom of that cause (x non-finite, Err, Ok with x far from the direct solution, a count above the bound -- not a panic, a wrong length, a modified correct x); inputs in range fall through to the breakdown keys; histories never. "
         "distinct = distinct executor line; non-trivial = order >= 2.")
 TRUSTED = ["Coq 8.16.1 kernel + vm_compute (primitive floats)", "Rust executor /verif/harness (kinds it.*)",
            "python driver: generators, numpy.linalg.solve / cond reference, stream comparators",
            "hand-written Gallina model coq/Model/Iter.v (on top of coq/Model/Sparse.v) tied to src/sparse.rs:303-616 by differential execution"]
-ASSUMPTIONS = ["Rust semantics of Vec/usize/f64 as modelled", "the iteration bound 3n+10 and the attainability rule are calibrated constants of the search, not theorems"]
+ASSUMPTIONS = ["Rust semantics of Vec/usize/f64 as modelled", "the iteration bound 3n+10 and the attainability rule are calibrated constants of the search, not theorems",
+               "calibration set of 3n+10: the random families small-* / big-* (SPD Gram+shift for CG; strictly row-diagonally-dominant with positive diagonal for BiCG 1/2, BiCGSTAB, QMR; "
+               "order 1..60, condition <= 1e4, tol 1e-3..1e-12) on the repaired tree (BiCG after d2fe329); the same bound is now ALSO applied, without a new calibration, to the struct-*, "
+               "exact-zeros, unit-rhs, scaled-* and history families; the largest count seen over all of them is 2.7n (evidence: c09.max_iters_over_n); mixed-sign diagonals are held to the budget 20n+100 only"]
 UNPROVED = ["convergence is proved in EXACT arithmetic only: cg_terminates_spd_R (SPD, every b, x0, tol >= 0, budget >= n: Ok k with k <= n, solved), cg_direct_solver_R, the same for symmetric strictly diagonally dominant matrices with positive diagonal (sdd_symmetric_is_posdef) and for BiCG on symmetric matrices (bicg_is_cg_on_symmetric); for arbitrary matrices bicg_breakdown_or_terminates (BiCG divides by zero or returns Ok within n+1 iterations); the exits of BiCGSTAB / QMR are characterised and the left-eigenvector class of the recorded breakdowns is a theorem. NOT proved: anything positive about BiCGSTAB / QMR beyond eigenvector and 1x1 starts, and every statement about the floating-point iteration (success within 3n+10, agreement with the direct solution to tol*cond): failing-input search only",
             "RECORDED finding f64-square-range (same mechanism as C15: Vector<f64>::norm_2 squares its entries without scaling): 'right-hand sides of any scale' fails beyond 2^+-511 -- with ||b|| < 2^-511 every solver answers Ok(0) and leaves x at the guess, with ||b|| > 2^512 norm_2(b) = inf and the answer is Err(NaN) with x = NaN; entries of A beyond 2^+-511 overflow / underflow the dot products likewise; witnesses corpus/C09/kf_scale_underflow.json, kf_scale_overflow.json",
             "the degenerate-start theorems are over exact fields (any square-root function with sqrt 0 = 0); their f64 instances are covered by the tie and the search"]
@@ -46,10 +49,10 @@ MANIFEST = dict(
           "bicg_legacy_refuted (float instance: Err nan, x = nan on diag(2,3), b=(2,3), x0=(1,1)). The CONVERGENCE half (Ok within 3n+10 iterations on SPD / "
           "strictly diagonally dominant systems of condition <= 1e4, agreement with the direct solution) is NOT proved: it is a failing-input search against "
           "numpy on order <= 60, with the float model tied to the implementation on order <= 12. The search found a new failure class (exact Krylov "
-          "breakdowns of BiCG / BiCGSTAB / QMR on small-integer systems), recorded as three open findings keyed by the model's exit code. The search space includes "
+          "breakdowns of BiCG / BiCGSTAB / QMR on small-integer systems), recorded as three open findings keyed by the model's trace when it reproduces the implementation's answer bit for bit: the model's exit code (an exact `== 0` exit / BiCG's 0/0) OR a near-breakdown (smallest scale-free bi-Lanczos pivot of the trace <= 1e-10). The search space includes "
           "structured matrices, joint power-of-two scaling of A and b (absolute thresholds show), one-entry / equal-entry / unit-norm / -0.0 right-hand sides, guesses exact "
           "except in one component, and restarts (two calls on the same matrix object and x: executor kind it.seq, oracle only). Right-hand sides / matrices scaled by "
-          "2^+-(520..700) are searched as well; the failures there are the recorded finding f64-square-range (norm_2 squares its entries), keyed by the input alone."),
+          "2^+-(520..700) are searched as well; the failures there are the recorded finding f64-square-range (norm_2 squares its entries), keyed by the input and granted only to the symptoms of that cause (non-finite x, Err, Ok with x far from the direct solution, a count above the bound): a panic, a wrong length, a modified correct x stays a violation there."),
     note=("PARTIAL: the degenerate-start half and exact-arithmetic finite termination of CG / symmetric BiCG on SPD and symmetric diagonally dominant systems are theorems. Convergence of the floating-point Krylov iterations is searched, never proved; the iteration "
           "constant 3n+10 (positive-diagonal SDD and SPD; 20n+100 for mixed-sign diagonals) and the attainability rule tol >= 10 n eps kappa are calibrated."),
     technique="Coq proof over an abstract field (degenerate starts) + float-model/implementation differential execution + numpy reference search (convergence)",
@@ -293,21 +296,40 @@ def judge(m, s, a, tol, maxit):
         lim = 2 * tol * kk * nxd + 1e-12 * kk * nxd       # ||x - x*|| <= kappa ||r|| / ||b|| ||x*||, accepted r <= tol ||b||; factor 2 + 1e-12 kappa for the drift of the recursive residual
     else:
         lim = 2 * tol * float(np.linalg.norm(np.linalg.inv(A), 2))          # absolute tolerance when b = 0
-    if nxd > 0 and nb != 0.0:
+    if nxd > 0 and nb != 0.0 and not stat_out_of_range(s, xd):
         STATS["max_err_over_tol_kappa"] = max(STATS["max_err_over_tol_kappa"], err / (tol * kk * nxd))
     if err > lim:
         return "Ok(%d) but ||x - x_direct|| = %.3e exceeds 2*tol*kappa*||x_direct|| = %.3e (tol %.0e, kappa %.3g)" % (a.k, err, lim, tol, kk)
     return None
 
+def stat_out_of_range(s, xd):
+    """for the STATISTICS only: is the system one of the recorded finding f64-square-range?  Cheap sufficient test first (every
+    non-zero magnitude of A, b, x0 and of the float solution within 2^+-255: no square or product leaves the range), the exact
+    predicate iterlib.scale_out_of_range otherwise (small systems in practice)."""
+    mags = [abs(v) for (_, _, v) in s.trip] + [abs(v) for v in s.b] + [abs(v) for v in s.x0] + [abs(float(v)) for v in xd]
+    mags = [v for v in mags if v != 0.0]
+    if all(math.isfinite(v) and 2.0 ** -255 <= v <= 2.0 ** 255 for v in mags): return False
+    STATS["statistics_excluded_out_of_range_checked"] = STATS.get("statistics_excluded_out_of_range_checked", 0) + 1
+    return scale_out_of_range(s)
+
 def finding_key(case, desc, decoded):
     if case.meta.get("role") == "seq":
         return None          # histories have no model twin: nothing is excused
-    # recorded finding f64-square-range: decided from the INPUT alone (||b||^2, a squared entry of b / x0 / A or a product
-    # A_ij x_j of the exact solution outside the normal f64 range); inputs in range fall through to the breakdown keys
-    if "sys" in case.meta and scale_out_of_range(Sys.from_json(case.meta["sys"])):
+    # recorded finding f64-square-range: decided from the INPUT (||b||^2, a squared entry of b / x0 / A or a product
+    # A_ij x_j of the exact solution outside the normal f64 range) AND granted only to the documented symptoms of unscaled
+    # squares: x non-finite (NaN / inf), Err(..) instead of convergence, Ok with x far from the direct solution (Ok(0) with
+    # x left at the guess), an iteration count above the bound (norm_2(b) = 0 is taken for a zero right-hand side and the test
+    # becomes absolute: Ok(32) for n = 3 on b = 2^-539 * (..) with a guess of order 1).  A panic, x of the wrong length, a
+    # modified correct x or a refused exact start is not explained by that cause and stays a violation.  Inputs in range
+    # fall through to the breakdown keys.
+    square_symptom = ("not finite" in desc or "non-finite" in desc or "no convergence" in desc or "exceeds 2*tol*kappa" in desc
+                      or "needs more than" in desc or ("was not accepted" in desc and "Err(nan)" in desc))
+    if square_symptom and "sys" in case.meta and scale_out_of_range(Sys.from_json(case.meta["sys"])):
         return KEY_SQUARE_RANGE
     if decoded is None or not ("no convergence" in desc or "not finite" in desc or "needs more than" in desc):
         return None
+    if "sys" in case.meta and scale_out_of_range(Sys.from_json(case.meta["sys"])):
+        return None          # an extreme-scale input whose failure is not a symptom of the squares: no key at all
     return breakdown_key(case, decoded, PID)
 
 def prepare(tier):
